@@ -82,7 +82,7 @@ func (opts *CompileOptions) Compile(source string) (string, error) {
 		return "", fmt.Errorf("missing tabular queries")
 	}
 
-	subqueries, err := splitQueries(nil, source, expr)
+	subqueries, err := splitQueries(nil, source, scope, expr)
 	if err != nil {
 		return "", err
 	}
@@ -128,7 +128,8 @@ type subquery struct {
 
 // splitQueries appends queries to dst that represent the given tabular expression.
 // The last element of the returned slice will be the query that represents the full expression.
-func splitQueries(dst []*subquery, source string, expr *parser.TabularExpr) ([]*subquery, error) {
+// scope holds the parameters and let bindings visible to join conditions.
+func splitQueries(dst []*subquery, source string, scope map[string]string, expr *parser.TabularExpr) ([]*subquery, error) {
 	dstStart := len(dst)
 	var lastSubquery *subquery
 	for i := 0; i < len(expr.Operators); i++ {
@@ -187,7 +188,7 @@ func splitQueries(dst []*subquery, source string, expr *parser.TabularExpr) ([]*
 			leftSubquery := len(dst) - 1
 
 			var err error
-			dst, err = splitQueries(dst, source, op.Right)
+			dst, err = splitQueries(dst, source, scope, op.Right)
 			if err != nil {
 				return nil, err
 			}
@@ -231,6 +232,7 @@ func splitQueries(dst []*subquery, source string, expr *parser.TabularExpr) ([]*
 			joinSource.WriteString(` AS "` + rightJoinTableAlias + `" ON `)
 			joinCtx := &exprContext{
 				source: source,
+				scope:  scope,
 				mode:   joinExprMode,
 			}
 			if err := writeExpression(joinCtx, joinSource, buildJoinCondition(op.Conditions)); err != nil {
